@@ -158,6 +158,11 @@ Definition spread {A} (k : nat) (grains : list A) : list (list A) :=
                     (S (fst st), upd (fst st mod k)%nat (fun s => s ++ [g]) (snd st)))
                  grains (O, repeat [] k)).
 
+(* survivingPeersExcept: every peer other than the target (matched on its endpoint), order kept,
+   in a FRESH slice: the caller's list is the value it was (relocate shares it between goroutines) *)
+Definition survivingPeersExcept (peers : list N) (target : N) : list N :=
+  filter (fun p => negb (N.eqb p target)) peers.
+
 (* ---------------------------------------------------------------- the fan-out of relocate *)
 (* shares := max(len(peerActors), len(peerGrains)); for i := 1; i < shares; i++ {
      peer := peers[i-1]; requests := buildRelocateBatchRequests(peerActors[i], peerGrains[i]) }
